@@ -498,6 +498,9 @@ def run_single_cell_rules(case, stats):
                      initial_condition_dict=dict(m["init"]), initialize_model=False)
     M.create_volume_rule("linear", {"growth_rate": 0.01})
     M.py_initialize()
+    for i in range(case.get("reinit", 0) or 0):      # edit history: un-initialise by an unused parameter, initialise again
+        M.create_parameter("zz_unused_%d" % i, 1.0)
+        M.py_initialize()
     R_.py_seed_random(case["bseed"])
     raw = {"species_order": M.get_species_list(), "recs": [], "error": None, "rows": None}
     R_.py_verif_trace_start(3_000_000, 1)
